@@ -127,6 +127,9 @@ class MemoryBIO:
         return len(data)
 
     def read(self, n=-1):
+        # ciphertext taken out of the BIO is in nobody's hands but the caller's: if the caller can be suspended or cancelled
+        # before it is written (e.g. while waiting for the send lock) the TLS stream is corrupted for every later sender
+        require(ghost.locks_held >= 1, "ciphertext-leaves-the-write-BIO-only-while-the-transport-send-lock-is-held")
         self.pending = 0
         return nondet_bytes()
 
@@ -435,6 +438,7 @@ def ssl_method(*args):
         ghost.tls_cause = 4
         raise_any(OSError, ssl.SSLError)
     ghost.tls_cause = 0
+    ghost.tls_ops_returned = ghost.tls_ops_returned + 1  # the operation completed: e.g. plaintext has left the SSL object
     return nondet_obj()
 
 
